@@ -28,8 +28,35 @@ def mk(kind, root, state=None):
     raise ValueError(kind)
 
 
+class Val(object):
+    """a weakly referenceable, picklable value (prints like the string it wraps)"""
+
+    def __init__(self, s):
+        self.s = s
+
+    def __str__(self):
+        return self.s
+
+    def __eq__(self, o):
+        return isinstance(o, Val) and o.s == self.s
+
+    def __hash__(self):
+        return hash(self.s)
+
+
+TRACK = {"on": False, "refs": []}
+
+
 def val(v):
-    return None if v is None else v
+    if v is None:
+        return None
+    return Val(v) if TRACK["on"] else v
+
+
+def alive():
+    import gc
+    gc.collect()
+    return len({id(w()) for w in TRACK["refs"] if w() is not None})
 
 
 def do(store, op):
@@ -40,6 +67,9 @@ def do(store, op):
             return "B1" if store.has_blob(op[1]) else "B0"
         if t == "fetch":
             r = store.fetch_blob(op[1])
+            if TRACK["on"] and r is not None:
+                import weakref
+                TRACK["refs"].append(weakref.ref(r))
             return "N" if r is None else "V:" + str(r)
         if t == "put":
             store.store_blob(op[1], val(op[2]), None)
@@ -70,13 +100,14 @@ def main():
                 codec_registry()
                 import fsgate
                 fsgate.install([os.path.join(root, "internal"), os.path.join(root, "data")], mode="trace")
+            TRACK["on"], TRACK["refs"] = bool(s.get("track_alive")), []
             store = mk(s["store"], root, state)
             cap = s["cap"]
             wrapped = None
             if cap != "bare":
                 n = sys.maxsize // 2 if cap == "unbounded" else cap
                 wrapped = LRUCacheStore(store, num_elem=n)
-            outs, lens = [], []
+            outs, lens, alive_counts = [], [], []
             if s.get("clients"):
                 # several cache wrappers (processes) over ONE inner store; ops are [client, op]
                 ws = [LRUCacheStore(store, num_elem=(sys.maxsize // 2 if cap == "unbounded" else cap)) for _ in range(s["clients"])]
@@ -96,7 +127,9 @@ def main():
                 outs.append(do(wrapped or store, op))
                 if wrapped is not None:
                     lens.append(len(wrapped._cache._cache))
-            entry = {"outs": outs, "lens": lens}
+                    if TRACK["on"]:
+                        alive_counts.append(alive())
+            entry = {"outs": outs, "lens": lens, "alive": alive_counts}
             if s.get("gate"):
                 import fsgate
                 entry["gate_log"] = fsgate.log()
